@@ -198,6 +198,7 @@ type scenario struct {
 	fsCode uint32
 	fsMsg  []byte
 	tm     [][2]string
+	hm     [][2]string // scripted response header metadata of the target (gRPC-WebSocket sessions)
 	early  int
 	delay  time.Duration // pause of the target between its last message and its final status
 	method *bridgedesc.Method
@@ -209,6 +210,7 @@ type scenario struct {
 	sd        [][]byte
 	sdFail    int
 	tr        string
+	sh        string // what the forwarder handed to SetHeader
 	fmd       string // metadata.FromIncomingContext inside Forward ("none" = Forward not entered)
 	oc        string
 	wake      chan struct{}
@@ -228,7 +230,7 @@ var (
 
 func newScenario(kv map[string]string) *scenario {
 	id := seq.Add(1)
-	sc := &scenario{kind: kv["k"], rt: kv["rt"], early: -1, te: "none", oc: "-", tr: "-", fmd: "none", wake: make(chan struct{}), done: make(chan struct{}),
+	sc := &scenario{kind: kv["k"], rt: kv["rt"], early: -1, te: "none", oc: "-", tr: "-", sh: "-", fmd: "none", wake: make(chan struct{}), done: make(chan struct{}),
 		fwdDone: make(chan struct{}), sendIn: make(chan struct{}), sendOut: make(chan struct{})}
 	switch {
 	case kv["tr"] == "tws":
@@ -247,6 +249,10 @@ func newScenario(kv map[string]string) *scenario {
 	for _, it := range unList(kv["tm"]) {
 		k, v, _ := strings.Cut(it, ":")
 		sc.tm = append(sc.tm, [2]string{string(UnCB(k)), string(UnCB(v))})
+	}
+	for _, it := range unList(kv["hm"]) {
+		k, v, _ := strings.Cut(it, ":")
+		sc.hm = append(sc.hm, [2]string{string(UnCB(k)), string(UnCB(v))})
 	}
 	if kv["ea"] != "-" && kv["ea"] != "" {
 		sc.early, _ = strconv.Atoi(kv["ea"])
@@ -367,6 +373,8 @@ func extraHeaders(h http.Header, xh string) {
 		h.Set("Connection", "upgrade")
 	case "ka":
 		h.Set("Connection", "keep-alive")
+	case "text": // application/grpc-web-text (base64 body): not supported by the bridge, dispatched like application/grpc-web
+		h.Set("Content-Type", "application/grpc-web-text")
 	}
 }
 
@@ -443,7 +451,23 @@ func (s *recStream) Send(ctx context.Context, msg proto.Message) error {
 	return err
 }
 
-func (s *recStream) SetHeader(md metadata.MD) { s.inner.SetHeader(md) }
+// SetHeader records the response header metadata the forwarder hands to the stream (flattened, sorted).
+func (s *recStream) SetHeader(md metadata.MD) {
+	var items []string
+	for k, vs := range md {
+		for _, v := range vs {
+			items = append(items, CB([]byte(k))+":"+CB([]byte(v)))
+		}
+	}
+	sort.Strings(items)
+	s.sc.mu.Lock()
+	s.sc.sh = "-"
+	if len(items) > 0 {
+		s.sc.sh = strings.Join(items, ",")
+	}
+	s.sc.mu.Unlock()
+	s.inner.SetHeader(md)
+}
 
 // SetTrailer records the trailer metadata the forwarder hands to the stream (flattened, sorted).
 func (s *recStream) SetTrailer(md metadata.MD) {
@@ -524,7 +548,13 @@ func (t *targetStream) Recv(ctx context.Context, msg proto.Message) error {
 	return status.Error(codes.Code(t.sc.fsCode), string(t.sc.fsMsg))
 }
 
-func (t *targetStream) Header() metadata.MD { return metadata.MD{} }
+func (t *targetStream) Header() metadata.MD {
+	md := metadata.MD{}
+	for _, kv := range t.sc.hm {
+		md.Append(kv[0], kv[1])
+	}
+	return md
+}
 
 func (t *targetStream) Trailer() metadata.MD {
 	md := metadata.MD{}
@@ -558,12 +588,15 @@ var (
 )
 
 // trailer metadata keys the forwarder's filter lets through (the filter itself is C07's subject)
-var allowTrailer = []string{"x-t", "x-u", "grpc-status", "grpc-message"}
+var allowTrailer = []string{"x-t", "x-u", "grpc-status", "grpc-message", "x-bin", "grpc-status-details-bin"}
+
+// response header metadata keys the filter lets through: over gRPC-WebSocket they travel in the header frame (lpmTrailer)
+var allowHeader = []string{"x-h", "x-h-bin"}
 
 func servers() {
 	srvOnce.Do(func() {
 		fwd := recFwd{grpcadapter.NewProxyForwarder(grpcadapter.ProxyForwarderOpts{
-			Filter: grpcadapter.NewProxyMDFilter(grpcadapter.ProxyMDFilterOpts{AllowTrailerMD: allowTrailer}),
+			Filter: grpcadapter.NewProxyMDFilter(grpcadapter.ProxyMDFilterOpts{AllowTrailerMD: allowTrailer, AllowResponseMD: allowHeader}),
 		})}
 		opts := webbridge.GRPCWebBridgeOpts{Logger: bridgelog.Discard(), Forwarder: fwd}
 		web := webbridge.NewGRPCWebBridge(router{}, opts)
@@ -789,7 +822,7 @@ func (sc *scenario) observed() string {
 	if len(sc.rv) > 0 {
 		rv = strings.Join(sc.rv, ",")
 	}
-	return fmt.Sprintf("rv=%s tg=%s te=%s sd=%s sf=%d tr=%s md=%s oc=%s", rv, cbList(sc.tg), sc.te, cbList(sc.sd), sc.sdFail, sc.tr, sc.fmd, sc.oc)
+	return fmt.Sprintf("rv=%s tg=%s te=%s sd=%s sf=%d tr=%s md=%s oc=%s sh=%s", rv, cbList(sc.tg), sc.te, cbList(sc.sd), sc.sdFail, sc.tr, sc.fmd, sc.oc, sc.sh)
 }
 
 func chunkPattern(s string) []int {
@@ -1063,6 +1096,7 @@ type stallRW struct {
 	blocked chan struct{} // closed when the stalled Write was entered
 	second  chan struct{} // closed when another Write was entered meanwhile
 	release chan struct{}
+	landed  chan struct{} // closed when the stalled Write has been appended to the wire
 }
 
 func (w *stallRW) Header() http.Header { return w.hdr }
@@ -1089,6 +1123,9 @@ func (w *stallRW) Write(p []byte) (int, error) {
 	w.mu.Lock()
 	w.wire = append(w.wire, p...)
 	w.mu.Unlock()
+	if n == 1 && len(p) > 0 && p[0] == 0x00 {
+		close(w.landed)
+	}
 	return len(p), nil
 }
 
@@ -1149,7 +1186,7 @@ func execStalled(kv map[string]string) string {
 		wire = append(wire, encFrame(fd)...)
 	}
 	mode := kv["sp"]
-	rw := &stallRW{hdr: http.Header{}, blocked: make(chan struct{}), second: make(chan struct{}), release: make(chan struct{})}
+	rw := &stallRW{hdr: http.Header{}, blocked: make(chan struct{}), second: make(chan struct{}), release: make(chan struct{}), landed: make(chan struct{})}
 	body := &stallBody{first: wire, tail: UnCB(kv["tl"]), gate: rw.blocked, end: make(chan struct{}), hold: strings.HasPrefix(mode, "timeout")}
 	req := httptest.NewRequest(http.MethodPost, sc.path, body)
 	req.Header.Set("Content-Type", "application/grpc-web+proto")
@@ -1175,6 +1212,11 @@ func execStalled(kv map[string]string) string {
 		after(rw.second, 150*time.Millisecond) // give a (wrongly) early trailer the time to be written
 	}
 	close(rw.release)
+	if blk == "yes" {
+		// the released Write lands on the wire whether or not the handler waits for it: a handler that has already written its
+		// trailer (or returned) is then seen with a data frame AFTER the trailer
+		after(rw.landed, watchdog())
+	}
 	hs := sc.handlerState()
 	close(body.end)
 	rw.mu.Lock()
@@ -1530,8 +1572,42 @@ func genScript(r *rand.Rand, codec string) string {
 		tm = CB([]byte("x-t")) + ":" + CB([]byte("a b")) + "," + CB([]byte("x-t")) + ":" + CB([]byte("c")) + "," + CB([]byte("x-u")) + ":" + CB(nil)
 	case 2:
 		tm = CB([]byte("grpc-status")) + ":" + CB([]byte("0")) + "," + CB([]byte("grpc-message")) + ":" + CB([]byte("fake"))
+	case 3:
+		tm = genTrailerKV(r)
+		if r.Intn(2) == 0 {
+			tm += "," + genTrailerKV(r)
+		}
 	}
 	return fmt.Sprintf("rs=%s fs=%d:%s tm=%s", cbList(rs), code, CB(msg), tm)
+}
+
+// genTrailerKV: one allow-listed trailer pair. Binary (-bin) values are arbitrary bytes (gRPC-Go decodes them before the bridge
+// sees them), biased to CR LF / NUL / a forged status line; text values are what a ClientConn may hand over, line breaks included.
+func genTrailerKV(r *rand.Rand) string {
+	k := common.Pick(r, []string{"x-bin", "x-bin", "grpc-status-details-bin", "x-t", "x-u"})
+	var v []byte
+	switch r.Intn(5) {
+	case 0:
+		v = []byte("a\r\ngrpc-status: 0")
+	case 1:
+		v = []byte{0x08, 0x05, 0x12, 0x02, 'n', 'o', 0x1a, 0x0a, 0x0a, 0x08, 't', 'y', 'p', 'e', '.', 'u', 'r', 'l'}
+	case 2:
+		v = common.RandBytes(r, r.Intn(9), []byte("\r\n\x00 \t:ab\xff\xc3\xa9="))
+	case 3:
+		v = common.RandBytes(r, r.Intn(40), nil)
+	default:
+		v = []byte(common.Pick(r, []string{"", "v", "a b", "A/+="}))
+	}
+	if !strings.HasSuffix(k, "-bin") {
+		// text values: what can be a header field value on the target connection (HT, SP..~, obs-text) plus CR / LF, which only
+		// a custom ClientConn can hand over; other control bytes never reach the bridge and are written as they are
+		for i, c := range v {
+			if (c < 0x20 && c != '\t' && c != '\r' && c != '\n') || c == 0x7f {
+				v[i] = 'a'
+			}
+		}
+	}
+	return CB([]byte(k)) + ":" + CB(v)
 }
 
 func genRoute(r *rand.Rand) string {
@@ -1735,7 +1811,25 @@ func genWS(r *rand.Rand) string {
 	if r.Intn(10) == 0 {
 		via = " via=root"
 	}
-	return fmt.Sprintf("ws k=%s cd=%s rt=%s hd=%s ms=%s %s ea=%s%s", kind, codec, genRoute(r), hd, ms, genScript(r, codec), ea, via)
+	hm := ""
+	if r.Intn(8) == 0 {
+		// response header metadata: over gRPC-WebSocket it is written into the header frame by the same lpmTrailer
+		k := common.Pick(r, []string{"x-h", "x-h-bin"})
+		_, v, _ := strings.Cut(genTrailerKV(r), ":")
+		vb := UnCB(v)
+		if k == "x-h" {
+			for i, c := range vb {
+				if (c < 0x20 && c != '\t' && c != '\r' && c != '\n') || c == 0x7f {
+					vb[i] = 'a'
+				}
+			}
+		}
+		hm = " hm=" + CB([]byte(k)) + ":" + CB(vb)
+		if r.Intn(3) == 0 {
+			hm += "," + CB([]byte("x-h")) + ":" + CB([]byte("second value"))
+		}
+	}
+	return fmt.Sprintf("ws k=%s cd=%s rt=%s hd=%s ms=%s %s ea=%s%s%s", kind, codec, genRoute(r), hd, ms, genScript(r, codec), ea, via, hm)
 }
 
 // genStalled: Forward returns (grpc-timeout / request-side error) while a response Send is stalled in the writer
@@ -1837,8 +1931,16 @@ func (Area) Gen(r *rand.Rand, tier string, emit func(string)) {
 			emit("unesc " + CB(s))
 		default:
 			md := "-"
-			if r.Intn(3) == 0 {
+			switch r.Intn(6) {
+			case 0, 1:
 				md = CB([]byte(common.Pick(r, []string{"x-t", "grpc-status", "grpc-message", "a"}))) + ":" + CB([]byte(common.Pick(r, []string{"", "1", "v w"})))
+			case 2, 3:
+				// values as gRPC-Go hands them over: binary ones decoded (any bytes), others any bytes a custom ClientConn may produce
+				var items []string
+				for n := 1 + r.Intn(3); n > 0; n-- {
+					items = append(items, genTrailerKV(r))
+				}
+				md = strings.Join(items, ",")
 			}
 			emit(fmt.Sprintf("trl %d %s %s", randCode(r), CB(randMsgText(r)), md))
 		}
